@@ -3,7 +3,7 @@
    (pattern id, subject, verdict); anything outside the table is "no match"
    (the harness puts every (pattern, string) pair a case can ask for into the
    table). *)
-From Verif Require Import Schema.Json Schema.Sem Schema.Encode.
+From Verif Require Import Schema.Json Schema.Sem Schema.Encode Schema.Refs.
 From Coq Require Import List NArith ZArith Bool.
 Import ListNotations.
 
@@ -24,3 +24,9 @@ Definition c13_enc (t : re_table) (s : schema) : result := enc (table_re t) s ma
 Definition c13_enc_ev (r : result) (j : json) : bool := ev (r_e r) j.
 Definition c13_poisoned (t : re_table) (s : schema) : bool := poisoned (table_re t) s.
 Definition c13_dev (r : result) : list nat := r_dev r.
+
+(* documents with named references (Schema/Refs.v) *)
+Definition c13_doc_ok (defs : list rschema) (s : rschema) : bool := doc_ok defs s.
+Definition c13_resolve_doc (defs : list rschema) (s : rschema) : schema := resolve_doc defs s.
+Definition c13_valid_r (t : re_table) (defs : list rschema) (s : rschema) (j : json) : bool :=
+  valid_r (table_re t) (length defs) defs s j.
